@@ -10,6 +10,21 @@ CLAIMED = {
          "For each of the 16 column kinds, every history up to depth d over insert/overwrite/merge/delete+reuse/multi-write/cross-block/late-column letters is run on the real code on every preset and capacity; after every step every live row is read through three reader paths and compared bit-for-bit with the model. Exhaustive within alphabet and depth, so a wrong width, missing presence bit, growth gap or interning mix-up reachable in d steps is found.",
          "Trusted: Go toolchain, reference model (plain maps, harness/model). Values from per-kind extreme alphabets; depth-bounded; bulk filler rows value-checked on a sample of offsets.",
          "DESIGN.md §8 C01"),
+ "C03": ("model_checking",
+         "bounded-exhaustive operation-sequence exploration against a reference model, with replica and snapshot-restore twins compared at every explored state",
+         "Every history up to depth d over value writes on both sides of each predicate, merges, put+merge / merge+put in one transaction, deletes with offset reuse and createIndex/dropIndex letters; at every node With(index) and Row.Bool(index) are compared with the predicate over the model on the primary, on a replica built from the emitted stream and on a restored snapshot, each with indexes created before and after the data.",
+         "Trusted: Go toolchain, reference model. Depth-bounded; one index family per unit (numeric thresholds incl. two indexes with one predicate, string equality, bool, enum equality).",
+         "DESIGN.md §8 C03"),
+ "C04": ("model_checking",
+         "bounded-exhaustive enumeration of data layouts x all filter chains up to length L on the real transaction API, compared with set algebra on a reference model",
+         "At every layout reachable within d1 operations on each preset, every chain of up to L filter steps (34 steps incl. missing and wrong-type columns) is run and its selection, Count, Range order/cursor/readers and Sum/Avg/Min/Max are compared with set algebra over the model, for each of the 10 numeric kinds.",
+         "Trusted: Go toolchain, reference model. Not judged: a first Union/WithUnion naming only missing columns; Min/Max with NaN values. Bounded by d1 and L.",
+         "DESIGN.md §8 C04"),
+ "C11": ("model_checking",
+         "bounded-exhaustive insert/delete histories against a reference model (SEQ) and preemption-bounded exhaustive interleavings of concurrent inserters/deleters under a controlled scheduler (SCHED)",
+         "SEQ: every history up to depth d of inserts (with values, empty, merge-on-insert, several per transaction), deletes and bulk fills across word and block edges on every capacity; each returned offset must be free, Count must equal the live rows, and a fresh row must expose only what its insert stored through readers, Sum and value filters. SCHED: all interleavings up to the preemption bound of concurrent inserting and deleting transactions.",
+         "Trusted: Go toolchain, reference model, the cooperative scheduler and its lock models (harness/vsched). Placement policy is not judged.",
+         "DESIGN.md §8 C11"),
  "C05": ("model_checking",
          "bounded-exhaustive enumeration of operation sequences over the real commit codec, compared with the literal list written",
          "Every sequence up to length L over (operation kind x value width/length x offset move) is written to a real commit.Buffer and read back through every path (Seek/Next, per-block Range, Clone, Buffer/Commit codecs, Log) and after a merge-swap pass; exhaustive for the stated alphabet and bound, so any encode/decode asymmetry in the 1..5-byte delta, block header, isNext or swap logic that shows within L operations is found.",
